@@ -59,14 +59,48 @@ def siteName {σ : Type} [DecidableEq σ] (names : List (String × σ)) (s : σ)
   | some p => p.1
   | none => "?"
 
+def parseTokenAnswer (j : Json) : E TokenAnswer := do
+  match ← str j "kind" with
+  | "token" => pure .token
+  | "unreachable" => pure .unreachable
+  | "timedOut" => pure .timedOut
+  | "status" => pure (.status (← nat j "code"))
+  | "unreadable" => pure .unreadable
+  | "badRequest" =>
+    match j.getObjVal? "error" with
+    | .ok (.str e) => pure (.badRequest (some e))
+    | _ => pure (.badRequest none)
+  | "undecodable" => pure .undecodable
+  | "errorDocument" => pure (.errorDocument (← str j "error"))
+  | k => throw s!"unknown token endpoint answer {k}"
+
+def parseEndpointAuth (j : Json) : E EndpointAuth := do
+  match ← str j "type" with
+  | "none" => pure .noAuth
+  | "api_key" => pure .apiKey
+  | "basic_auth" => pure .basicAuth
+  | "oauth2_client_credentials" => pure (.clientCredentials (← parseTokenAnswer (← fld j "answer")))
+  | t => throw s!"unknown endpoint authentication {t}"
+
+/-- a verdict: `{"ok": sub}` or `{"fail": site, "cause": err}`; a failure of the endpoint's own authentication is
+given as `{"fail": site, "endpointAuth": {...}, "via": "metadata"?}` — the cause is then the model's
+(`EndpointAuth.failure`, `authenticationFailed`, `metadataRequestFailed`) -/
 def parseVerdict {σ : Type} (names : List (String × σ)) (j : Json) : E (Verdict σ) :=
   match j.getObjVal? "ok" with
   | .ok (.str s) => pure (.ok s)
   | _ => do
     let site ← siteOf names (← str j "fail")
-    let cause ← match j.getObjVal? "cause" with
-      | .ok c => parseErr c
-      | .error _ => pure .foreign
+    let cause ← match j.getObjVal? "endpointAuth" with
+      | .ok a => do
+        match (← parseEndpointAuth a).failure with
+        | some e =>
+          let c := authenticationFailed e
+          pure (if strD j "via" "" == "metadata" then metadataRequestFailed c else c)
+        | none => throw "the endpoint authentication named by the verdict does not fail"
+      | .error _ =>
+        match j.getObjVal? "cause" with
+        | .ok c => parseErr c
+        | .error _ => pure .foreign
     pure (.fail site cause)
 
 def parseTable {σ : Type} (names : List (String × σ)) (w : Json) (k : String) :
@@ -147,18 +181,39 @@ def parseBVal (j : Json) : E BVal := do
     pure (.anys (l.map fun x => match x with | .str s => some s | _ => none))
   | _ => pure .other
 
-def parseBody (rq : Json) : E Body :=
+def parseFields (j : Json) : E (Option (List (String × BVal))) :=
+  match j with
+  | .arr fields => do
+    let m ← fields.toList.mapM fun f => do
+      match f with
+      | .arr #[.str name, v] => pure (name, ← parseBVal v)
+      | _ => throw "bad body field"
+    pure (some m)
+  | _ => pure none
+
+/-- the body as the three decoders read it: `reads: {json, form, yaml}` (each a list of fields or null); cases written
+before the content type became a dimension carry `parsed` only — what the decoder their content type selects reads -/
+def parsePayload (rq : Json) : E Payload :=
   match rq.getObjVal? "body" with
   | .ok b =>
-    match b.getObjVal? "parsed" with
-    | .ok (.arr fields) => do
-      let m ← fields.toList.mapM fun f => do
-        match f with
-        | .arr #[.str name, v] => pure (name, ← parseBVal v)
-        | _ => throw "bad body field"
-      pure (.map m)
-    | _ => pure .none
-  | .error _ => pure .none
+    match b.getObjVal? "reads" with
+    | .ok rd => do
+      pure { json := ← parseFields (fldD rd "json" Json.null), form := ← parseFields (fldD rd "form" Json.null),
+             yaml := ← parseFields (fldD rd "yaml" Json.null) }
+    | .error _ => do
+      let m ← parseFields (fldD b "parsed" Json.null)
+      pure { json := m, form := m, yaml := m }
+  | .error _ => pure {}
+
+/-- the `Content-Type` lines of the request: `ct` of the body is one line or a list of lines (none: no such header) -/
+def contentTypeLines (rq : Json) : List (String × String) :=
+  match rq.getObjVal? "body" with
+  | .ok b =>
+    match b.getObjVal? "ct" with
+    | .ok (.str ct) => [("Content-Type", ct)]
+    | .ok (.arr lines) => lines.toList.filterMap fun l => match l with | .str s => some ("Content-Type", s) | _ => none
+    | _ => []
+  | .error _ => []
 
 def parseReq (rq : Json) : E Req := do
   -- the raw query string / raw Cookie header lines, if given, are read as net/url and net/http read them
@@ -168,8 +223,8 @@ def parseReq (rq : Json) : E Req := do
   let cookies ← match rq.getObjVal? "rawCookies" with
     | .ok (.arr lines) => do pure (Wire.parseCookies (← lines.toList.mapM (·.getStr?)))
     | _ => parsePairs rq "cookies"
-  pure { host := strD rq "host" "heimdall.local", headers := ← parsePairs rq "headers", query, cookies,
-         body := ← parseBody rq }
+  pure { host := strD rq "host" "heimdall.local", headers := contentTypeLines rq ++ (← parsePairs rq "headers"), query,
+         cookies, payload := ← parsePayload rq }
 
 def obsJson : Spec.Obs → Json
   | .ok s => Json.mkObj [("ok", jstr s)]
@@ -227,7 +282,19 @@ def label (w : World) (a : Authn) (r : Req) : String :=
     | .error _ => "generic:noData"
     | .ok t => verdict "generic" genSiteNames (w.genVerdict a.key t)
 
+/-- op `decoder`: which body decoder `contenttype.NewDecoder` chooses for each of the given `Content-Type` values -/
+def runDecoder (c : Json) : E Json := do
+  let cts ← strs c "cts"
+  let name (ct : String) : Json :=
+    match decoderFor ct with
+    | some .json => jstr "json"
+    | some .form => jstr "form"
+    | some .yaml => jstr "yaml"
+    | none => Json.null
+  return Json.mkObj [("res", jarr (cts.map name)), ("stats", Json.mkObj [])]
+
 def run (c : Json) : E Json := do
+  if strD c "op" "chain" == "decoder" then return ← runDecoder c
   let mechs ← (← arr c "mechs").mapM parseMech
   let chain ← (← arr c "steps").mapM fun s => do
     let ref ← str s "ref"
